@@ -123,7 +123,8 @@ fn main() {
     if what == "miri-slice" {
         // C07 workload slice for `cargo miri run`: single-threaded, no FFI oracle.
         // args: --seed S (shard) ; env LZVERIF_MIRI_CASES (default 20)
-        let n: u64 = std::env::var("LZVERIF_MIRI_CASES").ok().and_then(|s| s.parse().ok()).unwrap_or(20);
+        // (Miri isolates the environment: the case count comes in through --budget)
+        let n: u64 = budget.unwrap_or(20);
         let mut cov = runner::Cov::default();
         let mut bad = 0u64;
         let mut ran = 0u64;
@@ -134,7 +135,7 @@ fn main() {
             i += 1;
             let c = mon::c07::gen_case(&mut rng, Tier::Quick);
             // Miri costs ~10 ms per decoded byte: keep the inputs tiny
-            if c.data.len() > 160 {
+            if c.data.len() > 120 {
                 continue;
             }
             let m = mon::c07::run_case(&c);
